@@ -495,6 +495,109 @@ theorem run_inv (env : Env) (n : Nat) : RunInv env (run env n) := by
   | zero => simp [run, RunInv]
   | succ n ih => exact tick_inv env _ ih
 
+
+/-! ## every pending callback is polled exactly once per invocation; the call answers -/
+
+/-- all pending callbacks have been polled `t` times -/
+def Sync (t : Nat) (s : State) : Prop := ∀ i, i ∈ s.callbacks → s.polled i = t
+
+theorem pollOne_polled (env : Env) (s : State) (i : Nat) :
+    (pollOne env s i).polled = fun j => if j = i then s.polled i + 1 else s.polled j := by
+  unfold pollOne afterValue
+  simp only
+  split
+  · rfl
+  · split <;> rfl
+  · split <;> rfl
+
+theorem pollOne_callbacks_sub (env : Env) (s : State) (i x : Nat) (hx : x ∈ (pollOne env s i).callbacks) : x ∈ s.callbacks := by
+  unfold pollOne afterValue at hx
+  simp only at hx
+  split at hx
+  · exact List.mem_of_mem_erase hx
+  · split at hx
+    · exact List.mem_of_mem_erase hx
+    · exact hx
+  · split at hx
+    · exact List.mem_of_mem_erase hx
+    · exact hx
+
+theorem pollFold_sync (env : Env) (t : Nat) : ∀ (rest : List Nat) (s : State), rest.Nodup →
+    (∀ x, x ∈ s.callbacks → x ∈ rest → s.polled x = t) → (∀ x, x ∈ s.callbacks → x ∉ rest → s.polled x = t + 1) →
+    Sync (t + 1) (rest.foldl (pollOne env) s) := by
+  intro rest
+  induction rest with
+  | nil => intro s _ _ hB x hx; exact hB x hx (by simp)
+  | cons i rest ih =>
+    intro s hnd hA hB
+    have hnd' := List.nodup_cons.1 hnd
+    refine ih (pollOne env s i) hnd'.2 ?_ ?_
+    · intro x hx hxr
+      have hxs := pollOne_callbacks_sub env s i x hx
+      have hne : x ≠ i := by intro heq; subst heq; exact hnd'.1 hxr
+      rw [pollOne_polled]
+      simp only [hne, if_false]
+      exact hA x hxs (by simp [hxr])
+    · intro x hx hxr
+      have hxs := pollOne_callbacks_sub env s i x hx
+      rw [pollOne_polled]
+      by_cases hxi : x = i
+      · subst hxi
+        simp only [if_true]
+        rw [hA x hxs (by simp)]
+      · simp only [hxi, if_false]
+        exact hB x hxs (by simp [hxi, hxr])
+
+theorem pollAll_sync (env : Env) (t : Nat) (s : State) (hnd : s.callbacks.Nodup) (h : Sync t s) : Sync (t + 1) (pollAll env s) :=
+  pollFold_sync env t s.callbacks s hnd (fun x hx _ => h x hx) (fun x hx hnx => absurd hx hnx)
+
+theorem run_none (env : Env) (n : Nat) (h : (run env n).2 = none) : n = 0 := by
+  cases n with
+  | zero => rfl
+  | succ n =>
+    exfalso
+    simp only [run, tick] at h
+    split at h <;> simp_all
+
+/-- run-level: while the answer is NOT_DONE_YET after `n` opportunities, the closure has been invoked `n` times and every pending
+    callback has been polled exactly `n` times -/
+theorem run_sync (env : Env) (n : Nat) : (run env n).2 = some .notDoneYet → Sync n (run env n).1 := by
+  induction n with
+  | zero => intro h; simp [run] at h
+  | succ n ih =>
+    intro h
+    have hinv := run_inv env n
+    cases ha : (run env n).2 with
+    | none =>
+      have hn0 := run_none env n ha
+      subst hn0
+      simp only [RunInv, ha] at hinv
+      simp only [run, tick, ha, hinv]
+      rw [invoke_fst, phase1_init]
+      obtain ⟨⟨done, hw⟩, h0⟩ := walk_init_inv env
+      split
+      · rename_i he
+        intro i hi
+        rw [List.isEmpty_iff.1 he] at hi
+        exact absurd hi (by simp)
+      · have := pollAll_sync env 0 (walk env State.init) hw.nodup (fun i _ => h0 i)
+        simpa using this
+    | some a =>
+      cases a with
+      | notDoneYet =>
+        simp only [RunInv, ha] at hinv
+        obtain ⟨⟨done, hi⟩, hans, _⟩ := hinv
+        have hne : (run env n).1.callbacks.isEmpty = false := by
+          cases hem : (run env n).1.callbacks.isEmpty
+          · rfl
+          · simp [hem] at hans
+        simp only [run, tick, ha]
+        rw [invoke_fst, phase1_pending env _ hne]
+        simp only [hne, Bool.false_eq_true, if_false]
+        exact pollAll_sync env n _ hi.nodup (ih ha)
+      | results rs => simp [run, tick, ha] at h
+      | unmodelled => simp [run, tick, ha] at h
+
 /-! ## lists -/
 
 theorem range_map_getD {α : Type} (ps : List α) (d : α) : (List.range ps.length).map (fun i => ps.getD i d) = ps := by
